@@ -10,7 +10,7 @@ import os
 from .kernel import REPO
 
 MAX_LEN = 400
-MAX_NEST = 10
+MAX_NEST = 8
 
 
 def _nesting(text: str) -> int:
@@ -212,6 +212,19 @@ CARRIERS = [
     "$[cmd < in.txt >> out.txt]\n",
     "cd ~/x && ls *.py\n",
 ]
+
+
+PAD_LINES = ["v0 = 0\n", "\n", "# c\n", "v3 = [\n", "  3]\n", "v5 = 5\n", "\n", "v7 = \"\"\"a\n", "b\"\"\"\n"]
+
+
+def padded(text: str, k: int) -> str:
+    """The record stored after k lines of other content (valid statements, blank and comment lines, a
+    multi-line bracket, a multi-line string)."""
+    return "".join(PAD_LINES[:k]) + text
+
+
+def carrier_texts() -> list[str]:
+    return sorted(set(CARRIERS) | {t for pair in PREFIX_SHARING + ALIASING for t in pair})
 
 
 def build_pool() -> list[str]:
